@@ -145,6 +145,8 @@ func Harness_C08_Table() {
 	chk := func(tk TokenType, prec int, goName string) {
 		r := lookupBinOp(tk)
 		verifAssert(r.E1 && r.E0.Precedence == prec && r.E0.GoFuncName == goName, "published rank of "+goName)
+		// comparisons and logical operators (ranks 2 and 3) yield bool
+		verifAssert(r.E0.IsBoolOp == (prec == 2 || prec == 3), "result kind of "+goName)
 	}
 	chk(New_TokenType_PIPE, 1, "frt.Pipe")
 	chk(New_TokenType_AMPAMP, 2, "&&")
